@@ -18,7 +18,7 @@ theorem foldTombs_mem {d : Defects} (ts : List NTomb) :
       · exact Or.inl e
     · exact Or.inr (List.mem_cons_of_mem _ h')
 
-theorem foldIngest_ntombs {d : Defects} {rights : List Bool} (req : List (Node × Option Node)) :
+theorem foldIngest_ntombs {d : Defects} {rights : Rights} (req : List (Node × Option Node)) :
     ∀ (r : Replica), (req.foldl (fun r (x : Node × Option Node) => ingestNode d rights r x.1 x.2) r).ntombs = r.ntombs := by
   induction req with
   | nil => intro r; rfl
@@ -36,7 +36,7 @@ theorem foldEdges_ntombs (es : List Edge) :
   | cons e t ih => intro r; simp only [List.foldl_cons]; rw [ih]
 
 /-- a day's synchronisation stores no deletion record that neither side held -/
-theorem syncDay_ntombs_mem {d : Defects} (hK : d.deletionBatchKeyedById = false) (rights : List Bool)
+theorem syncDay_ntombs_mem {d : Defects} (hK : d.deletionBatchKeyedById = false) (rights : Rights)
     (dst src : Replica) (room ent day : Nat) (x : NTomb)
     (h : x ∈ (syncDay d rights dst src room ent day).dst.ntombs) : x ∈ dst.ntombs ∨ x ∈ src.ntombs := by
   unfold syncDay at h
@@ -78,7 +78,7 @@ def joinDays (src : Replica) (room : Nat) (l : List (Nat × Nat)) (a : ARep) : A
   l.foldl (fun a x => join a (abs (slice src room x.1 x.2))) a
 
 include hI hR hK hE in
-theorem syncDays_refines {rights : List Bool} (hA : AllRights rights) {src : Replica}
+theorem syncDays_refines {rights : Rights} (hA : AllRights rights) {src : Replica}
     (hzs : NoZombie src) (hns : IdsNodup src) (room : Nat) (l : List (Nat × Nat)) :
     ∀ (dst : Replica) (ch : Bool) (f : Nat), NoZombie dst → PkFun (fun x => x ∈ dst.ntombs ∨ x ∈ src.ntombs) →
       abs (syncDays d rights src room l dst ch f).1 = joinDays src room l (abs dst) := by
@@ -113,7 +113,7 @@ include hI hR hK hE in
 /-- **refinement, one pull.** With the whole history compared (`summaryFirstEntityOnly` off) the rows and node
     deletion records after `synchronise_room` are those before, joined with the source's rows and records of every
     day whose daily hash differs — whatever the two logs hold. -/
-theorem pull_refines_days (hS : d.summaryFirstEntityOnly = false) {rights : List Bool} (hA : AllRights rights)
+theorem pull_refines_days (hS : d.summaryFirstEntityOnly = false) {rights : Rights} (hA : AllRights rights)
     {dst src : Replica} (hzd : NoZombie dst) (hzs : NoZombie src) (hns : IdsNodup src)
     (hpk : PkFun (fun x => x ∈ dst.ntombs ∨ x ∈ src.ntombs)) (room : Nat) :
     abs (pull d rights dst src room).dst = joinDays src room (diffDays dst src room) (abs dst) := by
